@@ -59,6 +59,7 @@ class FnReport:
         self.solver_time = 0.0
         self.wall = 0.0
         self.exits = {"return": 0, "raise": 0}
+        self.raised_classes = set()
         self.schema = None
 
     def add(self, ob: Obligation):
@@ -242,12 +243,16 @@ class FunctionVerifier:
                 try:
                     env[nm] = ip.eval_spec_expr(w, env, old)
                 except (PyRaise, Unsupported):
-                    ip.check(f"witness:{nm}", z3.BoolVal(False), where=f"no value for {nm}: `{w}` is not defined on this path")
+                    # no witness on this path: the effects check decides whether an event is missing
                     env[nm] = mk_sym(st, ip.tenv, _t, st.fresh_name(nm))
             for rr in c.raises:
                 if rr.mode == "iff":
                     w = self.pre_bool(ip, rr.when, env, old)
                     ip.check(f"raises-iff:{rr.exc}", z3.Not(w), where=f"returns normally although `{rr.when}`")
+            if c.result_expr is not None:
+                ip.check("ensures:result_is", _b(ip.identical(result, ip.eval_spec_expr(c.result_expr, env, old)))
+                         if not isinstance(result, (VInt, VStr, VBool)) else _b(ip.eq(result, ip.eval_spec_expr(c.result_expr, env, old))),
+                         where=f"result is {c.result_expr}")
             for name, expr in c.ensures.items():
                 try:
                     t = ip.spec_bool(expr, env, old)
@@ -258,6 +263,7 @@ class FunctionVerifier:
             self.check_frame(ip, c.modifies, env, old)
         else:
             rep.exits["raise"] += 1
+            rep.raised_classes.add(raised.cls)
             match = None
             cands = [x for x in c.raises if exc_is_sub(raised.cls, x.exc)]
             if len(cands) == 1:
@@ -312,7 +318,13 @@ class FunctionVerifier:
         st = ip.st
         lists = [g for g, t in c.ghost_init.items() if t == "events"]
         for g in lists:
-            expected = [ip.eval_spec_expr(ev, env, old) for (lst, ev) in effects if lst == g]
+            expected = []
+            for eff in effects:
+                if eff[0] != g:
+                    continue
+                if len(eff) > 2 and not st.branch(self.pre_bool(ip, eff[2], env, old)):
+                    continue
+                expected.append(ip.eval_spec_expr(eff[1], env, old))
             actual = env[g].items
             if len(expected) != len(actual):
                 got = [self._ev_tag(a) for a in actual]
@@ -320,7 +332,7 @@ class FunctionVerifier:
                          where=f"expected {len(expected)} event(s), path produced {got}")
             else:
                 t = _and([ip.eq(a, b) for a, b in zip(expected, actual)])
-                ip.check(f"{tag}:{g}", _b(t), where=f"events {[ev for (l, ev) in effects if l == g]}")
+                ip.check(f"{tag}:{g}", _b(t), where=f"events {[e[1] for e in effects if e[0] == g]}")
 
     def _ev_tag(self, ev):
         if isinstance(ev, VTuple) and ev.items and isinstance(ev.items[0], VStr):
